@@ -18,13 +18,13 @@ Definition ex_heights (ks : list Z) (s : gstate) : list Z :=
 
 (* from the initial state: a block every two rounds, queued by every validator *)
 Lemma ex_rounds_obs :
-  map (fun r => ex_heights [1; 2; 3; 4] (sync_rounds ex_P ex_pay r (ginit ex_P))) [1; 2; 3; 4; 5]%nat =
+  map (fun r => ex_heights [1; 2; 3; 4] (sync_rounds ex_P ex_pay (find_cert ex_P) r (ginit ex_P))) [1; 2; 3; 4; 5]%nat =
   [[0; 0; 0; 0]; [0; 0; 0; 0]; [1; 1; 1; 1]; [1; 1; 1; 1]; [2; 2; 2; 2]] /\
-  g_qlog (sync_rounds ex_P ex_pay 5 (ginit ex_P)) =
+  g_qlog (sync_rounds ex_P ex_pay (find_cert ex_P) 5 (ginit ex_P)) =
   [(1, 0, 100); (2, 0, 100); (3, 0, 100); (4, 0, 100); (1, 1, 101); (2, 1, 101); (3, 1, 101); (4, 1, 101)].
 Proof. split; vm_compute; reflexivity. Qed.
 
-Theorem ex_rounds_reachable : preach ex_P (sync_rounds ex_P ex_pay 5 (ginit ex_P)).
+Theorem ex_rounds_reachable : preach ex_P (sync_rounds ex_P ex_pay (find_cert ex_P) 5 (ginit ex_P)).
 Proof. apply sync_rounds_reach. apply PReachInit. Qed.
 
 (* after the prefix in which validator 3 crashed between the durable write of its vote and its
@@ -37,8 +37,8 @@ Definition ex_ops_part : list xop :=
    XCrash 1 None 0 false; XRestart 2].
 
 Lemma ex_recovery_obs :
-  option_map (fun s => (ex_obs s, map (fun r => ex_heights [1; 2; 3; 4] (sync_rounds ex_P ex_pay r s)) [1; 2; 3; 4]%nat,
-                        g_qlog (sync_rounds ex_P ex_pay 2 s)))
+  option_map (fun s => (ex_obs s, map (fun r => ex_heights [1; 2; 3; 4] (sync_rounds ex_P ex_pay (find_cert ex_P) r s)) [1; 2; 3; 4]%nat,
+                        g_qlog (sync_rounds ex_P ex_pay (find_cert ex_P) 2 s)))
              (xrun ex_P (ginit ex_P) ex_ops_part) =
   Some (([(1, 2, true, 0); (1, 2, true, 0); (1, 2, true, 0); (0, 2, true, 0)], 17%nat, 13%nat, []),
         [[0; 0; 0; 0]; [1; 1; 1; 1]; [1; 1; 1; 1]; [2; 2; 2; 2]],
@@ -46,12 +46,12 @@ Lemma ex_recovery_obs :
 Proof. vm_compute. reflexivity. Qed.
 
 Lemma ex_crash_recovery_obs :
-  option_map (fun s => g_qlog (sync_rounds ex_P ex_pay 4 s)) (xrun ex_P (ginit ex_P) ex_ops_crash) =
+  option_map (fun s => g_qlog (sync_rounds ex_P ex_pay (find_cert ex_P) 4 s)) (xrun ex_P (ginit ex_P) ex_ops_crash) =
   Some [(1, 0, 42); (2, 0, 42); (3, 0, 42); (4, 0, 42)].
 Proof. vm_compute. reflexivity. Qed.
 
 Lemma ex_recovery_qlog :
-  option_map (fun s => g_qlog (sync_rounds ex_P ex_pay 2 s)) (xrun ex_P (ginit ex_P) ex_ops_part) =
+  option_map (fun s => g_qlog (sync_rounds ex_P ex_pay (find_cert ex_P) 2 s)) (xrun ex_P (ginit ex_P) ex_ops_part) =
   Some [(1, 0, 42); (2, 0, 42); (3, 0, 42); (4, 0, 42)].
 Proof. vm_compute. reflexivity. Qed.
 
@@ -64,8 +64,8 @@ Proof.
 Qed.
 
 Theorem ex_recovery_reachable :
-  exists s, preach ex_P s /\ g_qlog (sync_rounds ex_P ex_pay 2 s) = [(1, 0, 42); (2, 0, 42); (3, 0, 42); (4, 0, 42)] /\
-            preach ex_P (sync_rounds ex_P ex_pay 2 s).
+  exists s, preach ex_P s /\ g_qlog (sync_rounds ex_P ex_pay (find_cert ex_P) 2 s) = [(1, 0, 42); (2, 0, 42); (3, 0, 42); (4, 0, 42)] /\
+            preach ex_P (sync_rounds ex_P ex_pay (find_cert ex_P) 2 s).
 Proof.
   destruct (xrun_some_reach _ _ _ _ ex_recovery_qlog) as (s & Hr & H).
   exists s. split; [exact Hr|]. split; [exact H|apply sync_rounds_reach; exact Hr].
@@ -88,8 +88,8 @@ Proof.
 Qed.
 
 Lemma ex_byz_leader_obs :
-  map (fun r => (map (fun k => r_view (n_live (g_node (sync_rounds ex_P6 ex_pay r (ginit ex_P6)) k))) [1; 3; 4; 5; 6],
-                 ex_heights [1; 3; 4; 5; 6] (sync_rounds ex_P6 ex_pay r (ginit ex_P6)))) [2; 3; 4; 5]%nat =
+  map (fun r => (map (fun k => r_view (n_live (g_node (sync_rounds ex_P6 ex_pay (find_cert ex_P6) r (ginit ex_P6)) k))) [1; 3; 4; 5; 6],
+                 ex_heights [1; 3; 4; 5; 6] (sync_rounds ex_P6 ex_pay (find_cert ex_P6) r (ginit ex_P6)))) [2; 3; 4; 5]%nat =
   [([1; 1; 1; 1; 1], [0; 0; 0; 0; 0]); ([2; 2; 2; 2; 2], [0; 0; 0; 0; 0]);
    ([2; 2; 2; 2; 2], [0; 0; 0; 0; 0]); ([3; 3; 3; 3; 3], [1; 1; 1; 1; 1])].
 Proof. vm_compute. reflexivity. Qed.
